@@ -54,7 +54,21 @@ def unit_factors(draw, sv: Sys):
 
 @st.composite
 def hull_case(draw):
-    cfg = draw(st.sampled_from(["bounded", "bounded", "unbounded", "flat"]))
+    cfg = draw(st.sampled_from(["bounded", "bounded", "unbounded", "flat", "one-receptor"]))
+    if cfg == "one-receptor":
+        # a single receptor: the gamut is an interval (its own code path).  Targets sit a relative 1e-10..1e-3 of the interval's
+        # length inside or outside one of its ends - far above rounding, far below any fixed absolute slack once the unit changes
+        # (added after seeded change S-C15-11)
+        sysd = draw(matrix_system(m=(1, 1), n=(2, 5), ub_kinds=("finite",)))
+        sv_ = Sys(sysd)
+        ends = [float(np.sum(np.minimum(sv_.Ap[0] * sv_.lb, sv_.Ap[0] * sv_.ub)) + sv_.basep[0]), float(np.sum(np.maximum(sv_.Ap[0] * sv_.lb, sv_.Ap[0] * sv_.ub)) + sv_.basep[0])]
+        rows = []
+        for _ in range(draw(st.integers(2, 5))):
+            e = draw(st.integers(0, 1))
+            dlt = draw(gens.log_uniform(1e-10, 1e-3)) * (ends[1] - ends[0]) * draw(st.sampled_from([-1.0, 1.0]))
+            rows.append(dict(b=[ends[e] + dlt], kind="interval-edge"))
+        s, c, asserted = draw(unit_factors(sv_))
+        return dict(system=sysd, rows=rows, s=s, c=c, asserted=asserted, cfg=cfg)
     if cfg == "bounded":
         sysd = draw(matrix_system(m=(2, 4), shape=draw(st.sampled_from(["exact", "under"])), surplus=(1, 2), ub_kinds=("finite",)))
     elif cfg == "unbounded":
@@ -98,6 +112,16 @@ def body_hull(case):
         t = lp_margin(sv1.Ap, sv1.basep, sv1.lb, sv1.ub, b) if sv1.bounded and sv1.n >= sv1.m else None
         clear_out = d >= 1e-6 * ext
         clear_in = (t is not None and t >= 1e-5) or (r["kind"] == "interior" and d <= 1e-9 * ext)
+        if sv1.m == 1 and r["kind"] == "interval-edge":
+            # exact interval arithmetic instead of the LP (whose tolerance is the 1e-6 band)
+            lo = float(np.sum(np.minimum(sv1.Ap[0] * sv1.lb, sv1.Ap[0] * sv1.ub)) + sv1.basep[0])
+            hi = float(np.sum(np.maximum(sv1.Ap[0] * sv1.lb, sv1.Ap[0] * sv1.ub)) + sv1.basep[0])
+            tt = min(float(b[0]) - lo, hi - float(b[0])) / (hi - lo)
+            clear_in, clear_out = tt >= 5e-11, tt <= -5e-11
+            if clear_in or clear_out:
+                check(bool(a1) == clear_in, "units:interval-membership", f"one-receptor gamut [{lo!r}, {hi!r}]: target {float(b[0])!r} ({tt:.3g} of the length {'inside' if clear_in else 'outside'}) reported {bool(a1)}",
+                      observed=dict(b=b.tolist(), s=s, c=c))
+                labs.append("nt:interval-edge")
         if not (clear_in or clear_out):
             labs.append("band")
             continue
